@@ -50,3 +50,35 @@ package netutil
 //@ at call strings.IndexFunc assert [an-omitted-method-is-checked-as-get] arg(a0) == ite(method0 == "", "GET", method0)
 //@ ensures [only-tokens] imp(result, result_of(strings.IndexFunc, 0) == -1)
 //@ ensures [the-token-check-runs-for-an-omitted-method-too] imp(method == "", calls(strings.IndexFunc) == 1 && result == (result_of(strings.IndexFunc, 0) == -1))
+
+// ---------------------------------------------------------------- the remaining pieces
+
+//@ func NewDNSCachingDialer
+//@ props C09
+//@ modifies nothing
+//@ ensures result != nil
+
+//@ func isNotToken
+//@ props C07 C13
+//@ modifies nothing
+//@ ensures result == !httpguts.IsTokenRune(r)
+
+// Resolving by connecting: the address of the peer that answered, with the asked port; a dial failure or an address without
+// a port is an error; the probe connection is closed on every return after a successful dial.
+//@ func LookupReachable
+//@ props C09
+//@ may_panic true
+//@ at return conn.RemoteAddr assume [a-tcp-dial-yields-a-tcp-address] typeis(result_of(conn.RemoteAddr, 0), *net.TCPAddr) && result_of(conn.RemoteAddr, 0).(*net.TCPAddr) != nil
+//@ at return d.Dial assume [a-connection-exactly-when-no-error] iff(result_of(d.Dial, 1) == nil, result_of(d.Dial, 0) != nil)
+//@ at call d.Dial assert [tcp-to-the-asked-address] arg(network) == "tcp" && arg(address) == addr0
+//@ ensures [dial-failure-is-returned] imp(result_of(d.Dial, 1) != nil, result1 == result_of(d.Dial, 1) && result0 == "" && calls(conn.Close) == 0)
+//@ ensures [probe-connection-is-closed] imp(result_of(d.Dial, 1) == nil, calls(conn.Close) == 1)
+//@ ensures [peer-address-with-the-asked-port] imp(result1 == nil, result0 == result_of(net.JoinHostPort, 0))
+//@ at call net.JoinHostPort assert arg(a1) == result_of(net.SplitHostPort, 1)
+
+// Warming the cache is one dial through the caching dialer; the connection is closed, a dial failure is returned.
+//@ func WarmDNSCache
+//@ props C09
+//@ may_panic true
+//@ requires c != nil
+//@ at call NewDNSCachingDialer assert [into-the-given-cache] arg(cache) == c0
